@@ -42,8 +42,8 @@ var tokSeq int64
 func NewTok() string { return fmt.Sprintf("T%016x", atomic.AddInt64(&tokSeq, 1)) }
 
 const (
-	idemInsert    = "INSERT INTO ks1.t (k, v) VALUES ('%s', 1)"
-	nonIdemInsert = "INSERT INTO ks1.t (k, v) VALUES ('%s', now())"
+	idemInsert      = "INSERT INTO ks1.t (k, v) VALUES ('%s', 1)"
+	nonIdemInsert   = "INSERT INTO ks1.t (k, v) VALUES ('%s', now())"
 	idemPrepared    = "INSERT INTO ks1.t (k, v) VALUES (?, 1)"
 	nonIdemPrepared = "INSERT INTO ks1.t (k, v) VALUES (?, now())"
 	selectPrepared  = "SELECT * FROM ks1.t WHERE k = ?"
